@@ -251,7 +251,7 @@ SUBCHECKS = {
     'schemas': SubCheck(run_case, strategy=lambda tier: _case('base'), examples={'quick': 800, 'thorough': 16000}),
     'schemas-family': SubCheck(run_case, strategy=lambda tier: _case('family'), examples={'quick': 600, 'thorough': 12000},
                                note='redefinitions with identical name pattern, sibling rules sharing a prefix, rules referenced twice'),
-    'schemas-typed-twins': SubCheck(run_case, strategy=lambda tier: _case('twins'), examples={'quick': 400, 'thorough': 8000},
+    'schemas-typed-twins': SubCheck(run_case, strategy=lambda tier: _case('twins'), examples={'quick': 700, 'thorough': 10000},
                                     note='family-mode schemas whose literals a / 32=a / 33=a are equal in value and differ only in component type'),
     'schemas-templated': SubCheck(run_case, strategy=lambda tier: st.fixed_dictionaries({
         'schema': G.templated_schema(), 'style': st.integers(0, 5), 'moves': st.just([])}),
